@@ -602,6 +602,26 @@ impl World {
         }
     }
 
+    /// a request of a kind the model has no handler for, on a copy of the state
+    pub fn do_unknown(&mut self, sender: &str, funds: &[Coin], kind: &str, json: &str) {
+        let msg = match crate::unknown::parse(json) {
+            Some(m) => m,
+            None => {
+                // not a request of this tree's contract (a replay on a tree without that kind)
+                self.stats.branch("unknown:unparsable");
+                return;
+            }
+        };
+        self.env_line(sender, &[]);
+        self.line(&format!("CU {} {} {} {}", wire::enc(sender), wire::coins(funds), wire::enc(kind), wire::enc(json)));
+        let s = sender.to_string();
+        let f = funds.to_vec();
+        let (out, b, a) = self.atomic(|d| execute(d.as_mut(), mock_env(), mock_info(&s, &f), msg));
+        self.finish("unknown_exec", &out, &b, &a);
+        self.stats.branch(&format!("unknown:{}:{}", kind, if matches!(out, Outcome::Ok(_)) { "ok" } else { "err" }));
+        self.restore(&b);
+    }
+
     fn note_branches(&mut self, msg: &ExecuteMsg, r: &Response) {
         let get = |k: &str| r.attributes.iter().find(|a| a.key == k).map(|a| a.value.clone());
         match msg {
@@ -686,6 +706,9 @@ impl World {
             }
             Step::Try { sender, funds, msg } => {
                 self.do_try(sender, funds, msg);
+            }
+            Step::Unknown { sender, funds, kind, json } => {
+                self.do_unknown(sender, funds, kind, json);
             }
             Step::Migrate { msg } => {
                 self.do_migrate(msg);
